@@ -19,6 +19,7 @@ pub mod c01;
 pub mod c03;
 pub mod c04;
 pub mod c05;
+pub mod c07;
 pub mod c08;
 pub mod c12;
 pub mod c13;
@@ -34,6 +35,7 @@ pub fn all() -> Vec<Box<dyn Check>> {
         Box::new(c03::C03),
         Box::new(c04::C04),
         Box::new(c05::C05),
+        Box::new(c07::C07),
         Box::new(c08::C08),
         Box::new(c12::C12),
         Box::new(c13::C13),
